@@ -352,7 +352,12 @@ RICH_RETS = dict(gen.DEFAULT_PROFILE, rets=['acc', 'const', 'const', 'const'])
 
 def check_C01(tier):
     # plus every argument pair of the identity family (a changed argument always shows up; an equal one never does)
+    # the overlay a record is validated against is modelled by its specification in FB.Impl; FB.CreatedFiles is the
+    # model of the class that maintains it (run_full), tied to created_files.py state by state
     return run_hist_prop('C01', tier, 1, 700, 40000, families=gen.SCENARIOS + [gen.scen_cache_subdir],
+                         unit_tie=('FB.CreatedFiles (run_full: the overlay of created files is exact) describes created_files.py',
+                                   lambda t, rep: [dict(q, what='created_files.py and FB.CreatedFiles differ after %s' % json.dumps(q['cmds'][-1]))
+                                                   for q in datastructure_tie('C01', t, rep, salt=1)]),
                          extra_cases=lambda t, ds: gen.gen_scenario_cases(core.seed() * 31 + 101, budget(t, 130, 1200), ds, [gen.scen_identity]))
 def check_C02(tier):
     from . import bkcheck, rbcheck
